@@ -167,6 +167,25 @@ pub fn run(args: &Args, rep: &mut Report) {
             }
         }
     }
+    // the largest volume of each width: the highest cluster numbers sit right below the reserved values of the table
+    // (0xFF5 is a data cluster on a 4084-cluster FAT12 volume, 0xFFF5 on a 65524-cluster FAT16 volume)
+    // (whichever of the candidate sizes the formatter accepts for that width)
+    let mut top12 = 0;
+    for clusters in [4084u32, 4083, 4082, 4081, 4080] {
+        let vc = VolCfg { fat: 12, bps: 512, spc: 1, nfats: 2, root_entries: 64, clusters, extra: 0, garbage: false, slack: 0, used_device: false };
+        if top12 < 2 && crate::vol::make_volume(&vc).is_ok() {
+            cfgs.push(vc);
+            top12 += 1;
+        }
+    }
+    let mut top16 = 0;
+    for clusters in [65524u32, 65523, 65522, 65521, 65520] {
+        let vc = VolCfg { fat: 16, bps: 512, spc: 1, nfats: 1, root_entries: 64, clusters, extra: 0, garbage: false, slack: 0, used_device: false };
+        if top16 < 1 && crate::vol::make_volume(&vc).is_ok() {
+            cfgs.push(vc);
+            top16 += 1;
+        }
+    }
     for vc in cfgs {
         for in_subdir in [false, true] {
             for stats_early in [false, true] {
